@@ -26,7 +26,7 @@ REPO = os.environ.get("NIFLY_REPO", "/repo")
 LEAN_DIR = os.path.join(VERIF, "lean")
 CACHE = os.path.join(VERIF, ".cache")
 REPLAYS = os.path.join(VERIF, "replays")
-EVIDENCE = os.path.join(VERIF, "evidence")
+EVIDENCE = os.environ.get("VERIF_EVIDENCE_DIR") or os.path.join(VERIF, "evidence")   # seeded-change runs write their evidence elsewhere
 GUARD = "NIFLY_VERIF"
 JOBS = int(os.environ.get("VERIF_JOBS", str(os.cpu_count() or 4)))
 
@@ -274,8 +274,8 @@ def leanchecker(module):
 # running op lines through implementation and model
 
 class Crash(Exception):
-    def __init__(self, index, line, output, rc):
-        self.index, self.line, self.output, self.rc = index, line, output, rc
+    def __init__(self, index, line, output, rc, binary=None):
+        self.index, self.line, self.output, self.rc, self.binary = index, line, output, rc, binary
 
 
 def run_lines(binary, lines, env=None, timeout=3600, cwd=None):
@@ -301,7 +301,7 @@ def run_lines(binary, lines, env=None, timeout=3600, cwd=None):
         out.pop()
     if p.returncode != 0 or len(out) < len(lines):
         idx = min(len(out), len(lines) - 1)
-        raise Crash(idx, lines[idx], p.stderr[:3000], p.returncode)
+        raise Crash(idx, lines[idx], p.stderr[:3000], p.returncode, binary)
     return out
 
 
